@@ -369,8 +369,8 @@ func ruleC01_1(c *Ctx) {
 			// the same discipline written as a range over the window drawArgs[i:end] followed by i = end
 			if lo, okR := rangeWindow(encodes[0], li); okR {
 				why = ""
-				if op := phiOfAtom(run.fr, lo); op != nil {
-					oi, ob := phiEdges(run.fr, op)
+				if op, of := phiIn(run, lo); op != nil {
+					oi, ob := phiEdges(of, op)
 					switch {
 					case len(oi) != 1 || oi[0].Key() != "0":
 						why = "the argument index does not start at 0"
@@ -393,8 +393,8 @@ func ruleC01_1(c *Ctx) {
 			}
 		}
 		if okIdx {
-			if phi := phiOfAtom(run.fr, iAtom); phi != nil {
-				init, back := phiEdges(run.fr, phi)
+			if phi, pf := phiIn(run, iAtom); phi != nil {
+				init, back := phiEdges(pf, phi)
 				if len(back) == 0 {
 					why = fmt.Sprintf("phi %s in block %d preds=%d init=%s", phi.Name(), phi.Block().Index, len(phi.Block().Preds), argKeys(init))
 				}
@@ -404,8 +404,8 @@ func ruleC01_1(c *Ctx) {
 				}
 				// it starts where the previous chunk stopped, and at 0 for the first chunk
 				if okIdx && len(init) == 1 {
-					if op := phiOfAtom(run.fr, init[0]); op != nil {
-						oi, ob := phiEdges(run.fr, op)
+					if op, of := phiIn(run, init[0]); op != nil {
+						oi, ob := phiEdges(of, op)
 						if len(oi) != 1 || oi[0].Key() != "0" || len(ob) != 1 || !sym.Eq(ob[0], iAtom) {
 							okIdx, why = false, "the argument index does not continue across chunks from 0"
 						}
@@ -421,8 +421,8 @@ func ruleC01_1(c *Ctx) {
 		R.Check(okIdx, key+":sequential", pos, "operands are read from the buffered arguments sequentially, without gaps or overlaps", why)
 	counted:
 		// n counts whole operations and decreases by the chunk size
-		if phi := phiOfAtom(run.fr, nAtom); phi != nil {
-			init, back := phiEdges(run.fr, phi)
+		if phi, pf := phiIn(run, nAtom); phi != nil {
+			init, back := phiEdges(pf, phi)
 			okN := len(init) == 1 && init[0].Op == "bin" && init[0].Name == "/" && init[0].Args[1].Key() == fmt.Sprint(nArgs)
 			R.Check(okN, key+":count", pos, fmt.Sprintf("n = len(drawArgs)/%d", nArgs), shortKey(init[0]))
 			// chunk size m: n' = n - m
@@ -745,4 +745,21 @@ func sameInt(a, b *sym.Term) bool {
 	x, ok1 := env.One(a)
 	y, ok2 := env.One(b)
 	return ok1 && ok2 && x.Equal(y)
+}
+
+// phiIn finds the phi an atom stands for, in the root frame of the run or in any frame inlined into it, and returns
+// it together with that frame.
+func phiIn(run *encRun, atom *sym.Term) (*ssa.Phi, *sym.Frame) {
+	if atom == nil || atom.Op != "atom" {
+		return nil, nil
+	}
+	for _, f := range append([]*sym.Frame{run.fr}, collectFrames(run.in.Events)...) {
+		if !strings.HasPrefix(atom.Name, "phi#"+f.ID+"#") {
+			continue
+		}
+		if phi := phiOfAtom(f, atom); phi != nil {
+			return phi, f
+		}
+	}
+	return nil, nil
 }
